@@ -24,6 +24,8 @@ impl Disc {
 }
 
 pub struct Pred {
+    /// failed messages with attached funds met by the reference before each trace entry
+    pub funded_fail_before: Vec<usize>,
     pub last_fail: Option<Why>,
     /// contract -> every key it ever wrote in this history
     pub ever_written: BTreeMap<String, std::collections::BTreeSet<Vec<u8>>>,
@@ -210,6 +212,9 @@ pub fn compare_traces(pred: &Pred, act: &Actual, top_ok_and_events_agree: Option
                 if field == "env.contract.address" && p.kind == Kind::Instantiate {
                     // the address of a new contract: derivation (C11), or leaked registry state after a failure (C02)
                     if failed_before { &["C02"] } else { &["C11"] }
+                } else if after_failure && !callee_entry && pred.funded_fail_before.get(i).copied().unwrap_or(0) > 0 {
+                    // a failed call had funds attached: they must have been returned (C05), by rollback (C02)
+                    &["C02", "C05"]
                 } else if after_failure && !callee_entry {
                     &["C02"]
                 } else if after_failure {
@@ -263,7 +268,9 @@ pub fn compare_traces(pred: &Pred, act: &Actual, top_ok_and_events_agree: Option
             return Some(Disc::new(if foreign && after_failure { &["C02", "C08"] } else if foreign { &["C08"] } else if after_failure { &["C02"] } else { &["C08", "C01"] }, "trace:reads", format!("trace position {} ({}): storage reads differ: contract saw {:?}, expected {:?}", i, entry_brief(p), a.reads, p.reads)));
         }
         if p.pre_queries != a.pre_queries || p.queries != a.queries {
-            return Some(Disc::new(if pred.fail_before.get(i).copied().unwrap_or(0) > 0 { &["C02"] } else { &["C10"] }, "trace:query-results", format!("trace position {} ({}): query results differ: contract was told {:?} / {:?}, state at that point gives {:?} / {:?}", i, entry_brief(p), a.pre_queries, a.queries, p.pre_queries, p.queries)));
+            // after a failure earlier in the call: the query shows an effect that had to be rolled back,
+            // which contradicts C02 (rollback) and C10 (no rolled-back effect is observable) alike
+            return Some(Disc::new(if pred.fail_before.get(i).copied().unwrap_or(0) > 0 { &["C02", "C10"] } else { &["C10"] }, "trace:query-results", format!("trace position {} ({}): query results differ: contract was told {:?} / {:?}, state at that point gives {:?} / {:?}", i, entry_brief(p), a.pre_queries, a.queries, p.pre_queries, p.queries)));
         }
         return Some(Disc::new(&["C02"], "trace:entry", format!("trace position {} differs: {:?} vs {:?}", i, p, a)));
     }
